@@ -391,111 +391,130 @@ def rates_parser(F, rep):
     b = bs[0]
     tb = Terms(F, b, inline_depth=0)
     pushes = [(i, t) for i, t in b.calls() if parse_callee(t["callee"])[2] == "push" and "RateEntry" in " ".join(t.get("aty") or [])]
+    hb2 = None
+    if not pushes:
+        # third spelling: the period is checked here and the row loop, with its pushes, lives in a same-crate helper called afterwards
+        # (small edit sm-u3): the call stands for the pushes in this function, the row rules are decided in the helper
+        hs = [(i, t) for i, t in b.calls() if t["callee"] in F.bodies and F.bodies[t["callee"]].crate == "cgt_money" and P.user_written(F, F.bodies[t["callee"]])
+              and any(parse_callee(u["callee"])[2] == "push" and "RateEntry" in " ".join(u.get("aty") or []) for _, u in F.bodies[t["callee"]].calls())]
+        if len({t["callee"] for _, t in hs}) == 1:
+            hb2 = F.bodies[hs[0][1]["callee"]]
+            pushes = hs
     if not pushes:
         # second spelling: the rows go through an iterator pipeline and the entry is built in a method (refactoring r25)
         if not _rates_parser_by_constructors(F, rep, b, tb):
             rep.unresolved("R7", "push", "no push of a RateEntry")
         return
-    # period check: on the Some(expected) edge, year and month are compared and a mismatch leaves without pushing
-    yr = mo = pos = False
-    some_targets = []
-    for s in b.reachable():
-        sw = b.term(s)
-        if sw["k"] == "switch":
-            c = tb.operand(sw["discr"])
-            if isinstance(c, tuple) and c and c[0] == "discr" and isinstance(c[1], tuple) and c[1] and c[1][0] == "param" \
-                    and "Option" in b.local_ty(c[1][1] + 1):
-                some_targets += [x for v, x in sw["targets"] if v == "1"]
-    # the period comparison may live in a helper called on the Some(expected) edge whose error is propagated with `?`
-    from mir import subst
-    for hi, ht_ in b.calls():
-        hb = F.bodies.get(ht_["callee"])
-        if hb is None or hb.crate != b.crate or not P.user_written(F, hb) or "Result" not in hb.ret:
-            continue
-        if not (some_targets and all(b.block_cuts(hi, st, p[0]) for st in some_targets for p in pushes)):
-            continue
-        # `?` on the helper's result: the Break arm must not reach a push
-        brk_ok = False
-        for s2 in b.reach_from(ht_["target"]) if ht_.get("target") is not None else ():
-            sw2 = b.term(s2)
-            if sw2["k"] == "switch":
-                c2 = tb.operand(sw2["discr"])
-                if isinstance(c2, tuple) and c2 and c2[0] == "discr" and any(isinstance(x, tuple) and x and x[0] == "call" and x[1] == hb.id for x in subterms(c2)):
-                    brk = [x for v, x in sw2["targets"] if v == "1"]
-                    brk_ok = bool(brk) and all(p[0] not in b.reach_from(brk[0]) for p in pushes)
-                    break
-        if not brk_ok:
-            continue
-        htb = Terms(F, hb, inline_depth=0)
-        hargs = [tb.operand(a) for a in ht_["args"]]
-        for s2 in hb.reachable():
-            sw2 = hb.term(s2)
-            if sw2["k"] != "switch":
+
+    def core(b, tb, pushes, rows):
+        # period check: on the Some(expected) edge, year and month are compared and a mismatch leaves without pushing
+        yr = mo = pos = False
+        some_targets = []
+        for s in b.reachable():
+            sw = b.term(s)
+            if sw["k"] == "switch":
+                c = tb.operand(sw["discr"])
+                if isinstance(c, tuple) and c and c[0] == "discr" and isinstance(c[1], tuple) and c[1] and c[1][0] == "param" \
+                        and "Option" in b.local_ty(c[1][1] + 1):
+                    some_targets += [x for v, x in sw["targets"] if v == "1"]
+        # the period comparison may live in a helper called on the Some(expected) edge whose error is propagated with `?`
+        from mir import subst
+        for hi, ht_ in b.calls():
+            hb = F.bodies.get(ht_["callee"])
+            if hb is None or hb.crate != b.crate or not P.user_written(F, hb) or "Result" not in hb.ret:
                 continue
-            c2 = subst(htb.operand(sw2["discr"]), hargs)
-            if isinstance(c2, tuple) and c2 and c2[0] in ("bin", "cmp") and c2[1] in ("Ne", "Eq") and "parse_period" in show(c2, 0):
-                lhs, rhs = show(c2[2]), show(c2[3])
-                comp = "year" if lhs.endswith(".0") and rhs.endswith(".0") else ("month" if lhs.endswith(".1") and rhs.endswith(".1") else None)
+            if not (some_targets and all(b.block_cuts(hi, st, p[0]) for st in some_targets for p in pushes)):
+                continue
+            # `?` on the helper's result: the Break arm must not reach a push
+            brk_ok = False
+            for s2 in b.reach_from(ht_["target"]) if ht_.get("target") is not None else ():
+                sw2 = b.term(s2)
+                if sw2["k"] == "switch":
+                    c2 = tb.operand(sw2["discr"])
+                    if isinstance(c2, tuple) and c2 and c2[0] == "discr" and any(isinstance(x, tuple) and x and x[0] == "call" and x[1] == hb.id for x in subterms(c2)):
+                        brk = [x for v, x in sw2["targets"] if v == "1"]
+                        brk_ok = bool(brk) and all(p[0] not in b.reach_from(brk[0]) for p in pushes)
+                        break
+            if not brk_ok:
+                continue
+            htb = Terms(F, hb, inline_depth=0)
+            hargs = [tb.operand(a) for a in ht_["args"]]
+            for s2 in hb.reachable():
+                sw2 = hb.term(s2)
+                if sw2["k"] != "switch":
+                    continue
+                c2 = subst(htb.operand(sw2["discr"]), hargs)
+                if isinstance(c2, tuple) and c2 and c2[0] in ("bin", "cmp") and c2[1] in ("Ne", "Eq") and "parse_period" in show(c2, 0):
+                    lhs, rhs = show(c2[2]), show(c2[3])
+                    comp = "year" if lhs.endswith(".0") and rhs.endswith(".0") else ("month" if lhs.endswith(".1") and rhs.endswith(".1") else None)
+                    if comp is None:
+                        continue
+                    mismatch = sw2["otherwise"] if c2[1] == "Ne" else [x for v, x in sw2["targets"] if v == "0"][0]
+                    ok_blocks = {bi for bi, si, st in hb.assigns() if st["rv"]["k"] == "agg" and st["rv"].get("adt") == "core::result::Result" and st["rv"].get("variant") == "Ok"}
+                    if not (ok_blocks & hb.reach_from(mismatch)):
+                        if comp == "year":
+                            yr = True
+                        else:
+                            mo = True
+        for s in b.reachable():
+            sw = b.term(s)
+            if sw["k"] != "switch":
+                continue
+            c = tb.operand(sw["discr"])
+            txt = show(c)
+            if isinstance(c, tuple) and c and c[0] in ("bin", "cmp") and c[1] in ("Ne", "Eq") and "parse_period" in txt:
+                lhs, rhs = show(c[2]), show(c[3])
+                comp = None
+                if lhs.endswith(".0") and rhs.endswith(".0"):
+                    comp = "year"
+                if lhs.endswith(".1") and rhs.endswith(".1"):
+                    comp = "month"
                 if comp is None:
                     continue
-                mismatch = sw2["otherwise"] if c2[1] == "Ne" else [x for v, x in sw2["targets"] if v == "0"][0]
-                ok_blocks = {bi for bi, si, st in hb.assigns() if st["rv"]["k"] == "agg" and st["rv"].get("adt") == "core::result::Result" and st["rv"].get("variant") == "Ok"}
-                if not (ok_blocks & hb.reach_from(mismatch)):
+                mismatch = sw["otherwise"] if c[1] == "Ne" else [x for v, x in sw["targets"] if v == "0"][0]
+                leaves = all(p[0] not in b.reach_from(mismatch) for p in pushes)
+                cuts = bool(some_targets) and all(b.block_cuts(s, st, p[0]) for st in some_targets for p in pushes)
+                if leaves and cuts:
                     if comp == "year":
                         yr = True
                     else:
                         mo = True
-    for s in b.reachable():
-        sw = b.term(s)
-        if sw["k"] != "switch":
-            continue
-        c = tb.operand(sw["discr"])
-        txt = show(c)
-        if isinstance(c, tuple) and c and c[0] in ("bin", "cmp") and c[1] in ("Ne", "Eq") and "parse_period" in txt:
-            lhs, rhs = show(c[2]), show(c[3])
-            comp = None
-            if lhs.endswith(".0") and rhs.endswith(".0"):
-                comp = "year"
-            if lhs.endswith(".1") and rhs.endswith(".1"):
-                comp = "month"
-            if comp is None:
-                continue
-            mismatch = sw["otherwise"] if c[1] == "Ne" else [x for v, x in sw["targets"] if v == "0"][0]
-            leaves = all(p[0] not in b.reach_from(mismatch) for p in pushes)
-            cuts = bool(some_targets) and all(b.block_cuts(s, st, p[0]) for st in some_targets for p in pushes)
-            if leaves and cuts:
-                if comp == "year":
-                    yr = True
-                else:
-                    mo = True
-        if isinstance(c, tuple) and c and c[0] in ("bin", "cmp") and c[1] in ("Le", "Gt") and c[3] == ("const", "Decimal::ZERO"):
-            # `rate <= 0` must leave without pushing (or, equivalently, pushes sit on the true edge of `rate > 0`);
-            # `rate < 0` alone would let a zero rate through (division by zero later)
-            true_t = sw["otherwise"]
-            false_t = [x for v, x in sw["targets"] if v == "0"]
-            reject = true_t if c[1] == "Le" else (false_t[0] if false_t else None)
-            if reject is not None:
-                arm = {x for x in b.reach_from(reject) if b.dominates(reject, x)}
-                dominates_push = all(b.dominates(s, p[0]) for p in pushes)
-                if dominates_push and all(p[0] not in arm for p in pushes):
-                    pos = True
-                    # …and EVERY row is judged: before the test only the iteration, the recognition of the currency code and
-                    # the parse of the number may send a row another way; a row skipped for any other reason (a currency seen
-                    # before) is a non-positive rate the file is not rejected for (seeded change C08-s6)
-                    from roles import guards_of
-                    skipped = []
-                    for cond, val, where in guards_of(b, tb, s):
-                        txt2 = show(cond)
-                        if isinstance(cond, tuple) and cond and cond[0] == "discr" and any(k in txt2 for k in ("next(", "from_code(", "branch(", "from_str(")):
-                            continue
-                        if isinstance(cond, tuple) and cond and cond[0] == "discr" and isinstance(cond[1], tuple) and cond[1] and cond[1][0] == "param":
-                            continue
-                        if "parse_period" in txt2 or "expected" in txt2:
-                            continue
-                        skipped.append(txt2[:70])
-                    rep.ob("R7", "rate:every-row-judged", not skipped, "every row with a recognised currency reaches the non-positive test" if not skipped else
-                           f"rows are skipped before the non-positive test under {skipped[:2]}: a file with a zero or negative rate in such a row is accepted",
-                           b.loc(sw["sp"]), key="R7:rate:every-row-judged")
+            if isinstance(c, tuple) and c and c[0] in ("bin", "cmp") and c[1] in ("Le", "Gt") and c[3] == ("const", "Decimal::ZERO"):
+                # `rate <= 0` must leave without pushing (or, equivalently, pushes sit on the true edge of `rate > 0`);
+                # `rate < 0` alone would let a zero rate through (division by zero later)
+                true_t = sw["otherwise"]
+                false_t = [x for v, x in sw["targets"] if v == "0"]
+                reject = true_t if c[1] == "Le" else (false_t[0] if false_t else None)
+                if reject is not None:
+                    arm = {x for x in b.reach_from(reject) if b.dominates(reject, x)}
+                    dominates_push = all(b.dominates(s, p[0]) for p in pushes)
+                    if dominates_push and all(p[0] not in arm for p in pushes):
+                        pos = True
+                        # …and EVERY row is judged: before the test only the iteration, the recognition of the currency code and
+                        # the parse of the number may send a row another way; a row skipped for any other reason (a currency seen
+                        # before) is a non-positive rate the file is not rejected for (seeded change C08-s6)
+                        from roles import guards_of
+                        skipped = []
+                        for cond, val, where in guards_of(b, tb, s):
+                            txt2 = show(cond)
+                            if isinstance(cond, tuple) and cond and cond[0] == "discr" and any(k in txt2 for k in ("next(", "from_code(", "branch(", "from_str(")):
+                                continue
+                            if isinstance(cond, tuple) and cond and cond[0] == "discr" and isinstance(cond[1], tuple) and cond[1] and cond[1][0] == "param":
+                                continue
+                            if "parse_period" in txt2 or "expected" in txt2:
+                                continue
+                            skipped.append(txt2[:70])
+                        rows and rep.ob("R7", "rate:every-row-judged", not skipped, "every row with a recognised currency reaches the non-positive test" if not skipped else
+                               f"rows are skipped before the non-positive test under {skipped[:2]}: a file with a zero or negative rate in such a row is accepted",
+                               b.loc(sw["sp"]), key="R7:rate:every-row-judged")
+        return yr, mo, pos
+
+    if hb2 is None:
+        yr, mo, pos = core(b, tb, pushes, True)
+    else:
+        yr, mo, _ = core(b, tb, pushes, False)
+        htb2 = Terms(F, hb2, inline_depth=0)
+        _, _, pos = core(hb2, htb2, [(i, t) for i, t in hb2.calls() if parse_callee(t["callee"])[2] == "push" and "RateEntry" in " ".join(t.get("aty") or [])], True)
     rep.ob("R7", "period:year-checked", yr, "period year is compared with the expected year before any entry is pushed" if yr else
            "no dominating comparison of the file's year with the expected year", b.loc(), key="R7:period:year")
     rep.ob("R7", "period:month-checked", mo, "period month is compared with the expected month before any entry is pushed" if mo else
